@@ -167,7 +167,7 @@ INSERTS = {
 }
 LINE_MODS = ("crlf", "trail", "cut54", "cut60", "cut66", "cut78", "alt_after",
              "alt_end", "hetflip", "serial5")
-RES_MODS = ("neg", "big", "icode", "icode_split")
+RES_MODS = ("neg", "big", "icode", "icode_split", "icode_collide")
 
 
 def is_coord(line):
@@ -265,6 +265,11 @@ def apply_program(lines, program):
                 l = l[:22] + f"{9000 + pos:>4}" + l[26:]
             elif what == "icode":
                 l = l[:26] + "A" + l[27:]
+            elif what == "icode_collide":
+                # this residue takes the NUMBER of the residue listed before
+                # it and is told apart by its insertion code only (5, 5A)
+                if pos > 0 and reskeys[pos - 1][0] == key[0]:
+                    l = l[:22] + reskeys[pos - 1][1] + "A" + l[27:]
             elif what == "icode_split":
                 if k >= (len(idxs) + 1) // 2:
                     l = l[:26] + "B" + l[27:]
